@@ -113,6 +113,20 @@ def generate(seed, tier, index):
         e2["phys"]["sp"]["seed"] = e2["script"]["rng_seed"]
         scripts.append(e2)
     x = m.x0.copy()
+    warm = False
+    if not reservoir and rf.chance(0.15):
+        # earlier in the same process, on the same engine object: the same model under the complementary chemostat map
+        # (what is flagged now was evolving then, and the other way round), iterated and mostly left unfinalized
+        w = copy.deepcopy(entry)
+        inv = [int(1 - int(c)) for c in m.chem.ravel()]
+        w["phys"]["spec"]["chem"] = inv
+        w["system"]["chemostats"] = inv
+        scripts.append(w)
+        wops = [["poison", rf.choice([0, 0x55, 0xff])], ["setup"], ["iterate_n", rf.randint(1, 8)]]
+        if rf.chance(0.35):
+            wops.append(["finalize"])
+        eps.append({"obj": 0, "kind": kind, "via": "LibRDEngine", "script": len(scripts) - 1, "ops": wops, "warm": True})
+        warm = True
     for rep in range(nrep):
         ops = []
         if rep > 0 and spec["reactions"] and rf.chance(0.8):
@@ -161,11 +175,12 @@ def generate(seed, tier, index):
         ops += obs
         if rep == nrep - 1 or rf.chance(0.5):
             ops.append(["finalize"])
-        eps.append({"obj": 0, "kind": kind, "via": rf.choice(["LibRDEngine", "factory"]), "script": min(rep, len(scripts) - 1),
-                    "ops": ops})
+        nmain = len(scripts) - (1 if warm else 0)
+        eps.append({"obj": 0, "kind": kind, "via": "LibRDEngine" if warm else rf.choice(["LibRDEngine", "factory"]),
+                    "script": min(rep, nmain - 1), "ops": ops})
     return {"format": 1, "property": ID, "seed": seed, "tier": tier, "index": index, "build": "plain",
             "scripts": scripts, "lifetimes": [{"pyseed": rf.bits(30), "episodes": eps}],
-            "meta": {"kind": kind, "coobs": coobs, "applied": applied, "reservoir": reservoir}}
+            "meta": {"kind": kind, "coobs": coobs, "applied": applied, "reservoir": reservoir, "warm": warm}}
 
 
 def check(case, results):
@@ -181,6 +196,9 @@ def check(case, results):
     nontrivial = 0
     for ei, ep in enumerate(case["lifetimes"][0]["episodes"]):
         v = []
+        if ep.get("warm"):
+            stats["prehistory_complementary_chemostat_map"] = 1
+            continue
         # hand-applied reactions of this episode
         for ev in res.events:
             if ev["e"] == ei and ev["op"] == "apply_reaction" and "exc" not in ev and not ev.get("skipped"):
